@@ -8,6 +8,8 @@ Sources transcribed (pyyeti/ode):
                   _get_complex_su_coefs  -> `cplxCoef`, `cplxSmall`
                   _solve_complex_unc     -> `stepCplx` (elastic recurrence), `rbStep` (rigid part)
   _base_ode_class.py _calc_acce_kdof     -> `calcAcce`
+                     _init_dv (uncoupled)  -> `useStatic`, `initD`, `initV`
+                     _init_dva (rf rows)   -> `rfRow`
 
 Every formula is ONE polymorphic definition over operation classes.  It is instantiated at `ℝ`/`ℂ`
 (Mathlib) in `Lemmas/SuCoef.lean`, `Props/C01.lean` for the theorems and at `Float` / `CF`
@@ -196,6 +198,31 @@ def calcAcce (m b k : α) (d v f : α) : α := (1 / m) * (f - b * v - k * d)
 
 /-- `_calc_acce_kdof` with `m is None` -/
 def calcAcceNone (b k : α) (d v f : α) : α := f - b * v - k * d
+
+/-! ### initial conditions (`_init_dv`, uncoupled) and residual-flexibility rows (`_init_dva`) -/
+
+/-- the guard of the static branch of `_init_dv`:
+`d0 is None and static_ic and self.elsize and F0[self.el].any()`; `f0el = F0[self.el]` -/
+def useStatic [BEq α] (static d0Given : Bool) (f0el : List α) : Bool :=
+  !d0Given && static && f0el.any fun x => !(x == 0)
+
+/-- one non-rf row of `d[:, 0]` after `_init_dv`: the user's `d0` if given; else, in the static
+branch, `F0 / k` on elastic rows (`d[self.el, 0] = F0[self.el] / self.k[self._el]`) and `0` on
+rigid-body rows; else `0` -/
+def initD (d0 : Option α) (static isEl : Bool) (k f0 : α) : α :=
+  match d0 with
+  | some d => d
+  | none => if static && isEl then f0 / k else 0
+
+/-- one non-rf row of `v[:, 0]`: the user's `v0` if given, else `0` -/
+def initV (v0 : Option α) : α :=
+  match v0 with
+  | some v => v
+  | none => 0
+
+/-- residual-flexibility rows, every sample: `d[rf] = ikrf * force[rf]` with `ikrf = 1.0 / krf`
+(`v[rf] = a[rf] = 0` are never written) -/
+def rfRow (k f : α) : α := (1 / k) * f
 
 /-! ### complex-eigenvalue path (`_get_complex_su_coefs`, `_solve_complex_unc`) -/
 
